@@ -76,9 +76,10 @@ func (f *Font) Widths() []float64 {
 // in PDF glyph space units (1/1000th of a text space unit).
 func (f *Font) WidthsPDF() []float64 {
 	widths := make([]float64, f.NumGlyphs())
-	q := f.FontMatrix[0] * 1000
-	for gid, glyph := range f.Glyphs {
-		widths[gid] = glyph.Width * q
+	for gid := range f.Glyphs {
+		// GlyphWidthPDF takes the font dictionary matrices of CID-keyed
+		// fonts into account.
+		widths[gid] = f.GlyphWidthPDF(glyph.ID(gid))
 	}
 	return widths
 }
